@@ -384,11 +384,15 @@ type c25Plan struct {
 	Compress  bool     `json:"compress"`
 	StopMs    int      `json:"clean_stop_ms"` // -1 never
 	Cleanup   bool     `json:"run_cleanup"`
+	SeekFaultEvery int `json:"seek_fault_every,omitempty"` // every n-th rewind of a file handle fails (I/O error)
 	Reqs      []c25Req `json:"reqs"`
 }
 
 func scenC25(e *Env) func() {
 	p := &c25Plan{CacheMs: Pick(e, 100, 300, 1000), SkipCache: e.Chance(25), Compress: e.Chance(40), StopMs: Pick(e, -1, -1, 0, 200, 1500), Cleanup: e.Chance(50)}
+	if e.Chance(20) {
+		p.SeekFaultEvery = Pick(e, 1, 2, 3)
+	}
 	n := e.Range(4, 12)
 	for i := 0; i < n; i++ {
 		p.Reqs = append(p.Reqs, c25Req{File: Pick(e, "a.txt", "big.txt", "big.txt", "k8193.bin", "dir/sub.txt", "one.txt"), GapMs: Pick(e, 0, 0, 50, 200, 600, 1500), Window: Pick(e, 0, 0, 100, 2000), SlowMs: Pick(e, 0, 0, 50, 400), AE: Pick(e, "", "", "gzip"), Abort: Pick(e, 0, 0, 0, 500)})
@@ -401,6 +405,19 @@ func scenC25(e *Env) func() {
 func c25Run(e *Env, p *c25Plan) {
 	fx := newFSFixture(e)
 	defer fx.cleanup()
+	if p.SeekFaultEvery > 0 {
+		nseek := 0
+		simfs.FailSeek = func(h *simfs.Handle, off int64, whence int) error {
+			if off == 0 && whence == io.SeekStart {
+				nseek++
+				if nseek%p.SeekFaultEvery == 0 {
+					e.Fault("seek_error")
+					return simfs.EIO
+				}
+			}
+			return nil
+		}
+	}
 	stop := make(chan struct{})
 	f := &fasthttp.FS{Root: fx.root, CompressRoot: fx.cache, Compress: p.Compress, CacheDuration: time.Duration(p.CacheMs) * time.Millisecond, SkipCache: p.SkipCache, CleanStop: stop, AcceptByteRange: true}
 	h := f.NewRequestHandler()
